@@ -145,7 +145,7 @@ theorem Seg.write (v i : Nat) (a : Lness) :
 
 theorem Seg.read1 (v i : Nat) (a : Lness) :
     Seg v [Ev.rd i] a (if i = v then a.raiseWeakToStrong else a) := by
-  have := Seg.reads v ⟨false, false, [i]⟩ a
+  have := Seg.reads v ⟨false, false, [i], 0⟩ a
   simp only [exReads, List.map_cons, List.map_nil, expr1T, List.mem_singleton, Bool.false_eq_true,
     ↓reduceIte] at this
   by_cases hi : i = v
@@ -242,11 +242,11 @@ theorem Seg.assign (v : Nat) (r : Lv n) (hv : v < n) (op : AOp) (lhs : Lhs) (rhs
     simp only
     by_cases hop : op ≠ AOp.eq ∧ op ≠ AOp.eqQuestion
     · simp only [hop, and_self, ↓reduceIte, ne_eq, not_false_eq_true]
-      have sr : Seg v [Ev.rd i] (r1.get v) ((Liveness.doExpr r1 ⟨false, false, [i]⟩).get v) :=
-        Seg.doExpr v r1 hv ⟨false, false, [i]⟩ (by
-          have := ExprPath.plain (e := ⟨false, false, [i]⟩) rfl
+      have sr : Seg v [Ev.rd i] (r1.get v) ((Liveness.doExpr r1 ⟨false, false, [i], 0⟩).get v) :=
+        Seg.doExpr v r1 hv ⟨false, false, [i], 0⟩ (by
+          have := ExprPath.plain (e := ⟨false, false, [i], 0⟩) rfl
           simpa [exReads] using this)
-      have sw := Seg.write v i ((Liveness.doExpr r1 ⟨false, false, [i]⟩).get v)
+      have sw := Seg.write v i ((Liveness.doExpr r1 ⟨false, false, [i], 0⟩).get v)
       rw [← get_lowerWeakToNone _ _ _ hv] at sw
       have := s1.append (sr.append sw)
       simpa using this
